@@ -123,6 +123,45 @@ def cli_flag_check(quick=True):
     return n, None
 
 
+def rate_one_check(quick=True):
+    """C15, bounded, through the public API (builder with_mutation_rate + registered mutator): at rate 1.0 with the boundary
+    mutator every BININT / FLOAT / BINFLOAT argument in the output is one of the mutator's boundary constants (no value
+    escapes mutation), in both entropy modes.  Returns (n_runs, first_violation or None)."""
+    import math
+    import pickletools
+    build()
+    jobs = []
+    for P in range(6):
+        for sd in range(12 if quick else 120):
+            jobs.append('P=%d seed=%d mut=boundary rate=1.0 min=60 max=200' % (P, sd))
+        for h in ('', '00', '0503', 'a1b2c3d4e5f60718', '17' * 40):
+            jobs.append('P=%d hex=%s mut=boundary rate=1.0 min=20 max=60' % (P, h))
+    ints = {0, -1, 1, 2 ** 31 - 1, -2 ** 31}
+    n = 0
+    seen = 0
+    for job, line in run_jobs(jobs):
+        n += 1
+        if not line.startswith('ok '):
+            continue
+        try:
+            ops = [(o.name, a) for o, a, p in pickletools.genops(bytes.fromhex(line[3:].split(' | ')[0]))]
+        except Exception:  # noqa: BLE001 - other properties' business
+            continue
+        for name, a in ops:
+            if name == 'BININT':
+                seen += 1
+                if a not in ints:
+                    return n, (job, 'C15 rate 1.0 with the boundary mutator registered, but BININT %d is not a boundary constant: a value escaped mutation' % a)
+            elif name in ('FLOAT', 'BINFLOAT'):
+                seen += 1
+                ok = math.isnan(a) or math.isinf(a) or a in (0.0, -1.0, 1.0, 1.7976931348623157e308, -1.7976931348623157e308)
+                if not ok:
+                    return n, (job, 'C15 rate 1.0 with the boundary mutator registered, but %s %r is not a boundary constant: a value escaped mutation' % (name, a))
+    if seen == 0:
+        raise RuntimeError('rate-one check is vacuous: no BININT/FLOAT/BINFLOAT seen')
+    return n, None
+
+
 def cli_forwarding_check(prop, quick=True):
     """C05 / C11, bounded: the command-line front end hands --protocol and --min-opcodes/--max-opcodes to the generator
     unchanged: the output of `--protocol P --min-opcodes a --max-opcodes b` passes the same byte-level checks as a
